@@ -199,7 +199,65 @@ def specs(w):
                     yield (str(shape), kind, is_async), spec
 
 
+MUTABLE_DEFAULT_SOURCE = '''
+import icontract
+
+
+@icontract.ensure(lambda log: len(log) <= 2)
+{a}def record(entry, log=[]):
+    log.append(entry)
+    return len(log)
+
+
+@icontract.ensure(lambda result, acc: result is acc)
+@icontract.ensure(lambda acc: len(acc) >= 1)
+{a}def accumulate(x, acc={{}}):
+    acc[x] = True
+    return acc
+
+
+@icontract.ensure(lambda seen, result: result in seen)
+{a}def remember(x, *, seen=set()):
+    seen.add(x)
+    return x
+'''
+
+
+def run_mutable_defaults(w) -> None:
+    """A parameter left to a mutable default which the body changes: the postconditions see the object as it is AFTER the body (it is
+    the very object the body received)."""
+    import icontract  # pylint: disable=import-outside-toplevel
+
+    for is_async in (False, True):
+        loaded = prog.load_source(MUTABLE_DEFAULT_SOURCE.format(a="async " if is_async else ""), w.scratch())
+        mod = loaded.module
+        try:
+            for tag, call, want in (("first", lambda: mod.record("a"), "returned"), ("second", lambda: mod.record("b"), "returned"),
+                                    ("third-exceeds", lambda: mod.record("c"), "violation"), ("identity", lambda: mod.accumulate(1), "returned"),
+                                    ("content", lambda: mod.remember(5), "returned")):
+                try:
+                    res = call()
+                    if is_async:
+                        res = probe.drive(res)
+                    outcome = "returned"
+                except icontract.ViolationError:
+                    outcome = "violation"
+                except BaseException as err:  # pylint: disable=broad-except
+                    outcome = "raised {}: {}".format(type(err).__name__, str(err)[:100])
+                w.count("post_evaluations")
+                w.count("mutable_default_calls")
+                w.case(("mutable-default", tag, is_async))
+                if outcome != want:
+                    w.violation("C02/postcondition-judged-on-another-object-than-the-body-received", "{}{}: {} (expected {}): the parameter was left to "
+                                "its mutable default, which the body changed".format("async " if is_async else "", tag, outcome, want),
+                                {"mutable_default": tag, "async": is_async})
+        finally:
+            loaded.unload()
+
+
 def run(w) -> None:
+    if w.shard == 1 % w.nshards:
+        run_mutable_defaults(w)
     w.exhaustive = False
     for meta, spec in specs(w):
         w.count("programs")
@@ -207,6 +265,9 @@ def run(w) -> None:
 
 
 def replay(case, w) -> None:
+    if "mutable_default" in case:
+        run_mutable_defaults(w)
+        return
     spec = case["prog"]
     model = Model(spec)
     contracts = runner.index_contracts(spec)
